@@ -229,27 +229,7 @@ func bvhCase(c *run.Ctx) run.Result {
 	rays := make([]rayQ, 0, nq)
 	for q := 0; q < nq; q++ {
 		o, oc := sc.queryPoint(r)
-		var d v3
-		var dc string
-		switch pick(r, []int{50, 25, 15, 10}) {
-		case 0:
-			t := pointOn(r, sc.elems[r.Intn(n)])
-			if t.dist(o) < 1e-6*diam {
-				d, dc = randDir(r), "generic"
-			} else {
-				d, dc = t.sub(o).unit(), "aimed"
-			}
-		case 1:
-			d, dc = randDir(r), "generic"
-		case 2:
-			d[r.Intn(3)] = float64(1 - 2*r.Intn(2))
-			dc = "axis"
-		default:
-			for d == (v3{}) {
-				d = v3{float64(r.Intn(3) - 1), float64(r.Intn(3) - 1), float64(r.Intn(3) - 1)}
-			}
-			d, dc = d.unit(), "diagonal"
-		}
+		d, dc, _ := sc.direction(r, o, []int{15, 25, 50, 10})
 		var tmin, tmax float64
 		var mc string
 		switch pick(r, []int{50, 25, 25}) {
@@ -268,6 +248,7 @@ func bvhCase(c *run.Ctx) run.Result {
 		}
 		ray := rendering.NewTemporalRay(pv(o), pv(d), 0)
 		d = fromPV(ray.Ray().Direction()) // the direction the structures use
+		countSignedZero(&res, d, "bvh_rays")
 		res.SetAdd("bvh_ray_classes", oc+"/"+dc+"/"+mc)
 		cands := classify(sc, o, d, tmin, tmax)
 		nDef, nAmb := 0, 0
@@ -333,7 +314,7 @@ func bvhCase(c *run.Ctx) run.Result {
 	}
 	for _, rq := range rays {
 		o, d, tmin, tmax, cands, ray := rq.o, rq.d, rq.tmin, rq.tmax, rq.cands, rq.ray
-		query := map[string]any{"origin": o, "direction": d, "min": tmin, "max": tmax, "class": rq.class, "record_mode": mode}
+		query := map[string]any{"origin": o, "direction": fmtV(d), "min": tmin, "max": tmax, "class": rq.class, "record_mode": mode}
 		type answer struct {
 			Hit      bool    `json:"hit"`
 			Distance float64 `json:"distance"`
